@@ -469,7 +469,34 @@ def _nonempty_cond(conds):
     return None
 
 
+def rule_builders(ctx):
+    """R7: the builders store what the caller configured: a port / address / network is pushed as given (as parsed from its text),
+    range ends only go through the guarded half-open conversion of R5 - nothing rewrites the value on its way into the lists the
+    `matches` functions compare packet fields with"""
+    P = ctx.program
+    allowed = ("::branch", "::map_err", "::parse", "::from_str", "::saturating_sub", "::clone", "::into", "::from", "::to_owned", "::start", "::end", "::deref")
+    n = 0
+    for crate in ("huginn_net_tcp", "huginn_net_http", "huginn_net_tls"):
+        for b in P.bodies.values():
+            if b.crate != crate or "::filter::" not in b.path or b.kind != "AssocFn":
+                continue
+            S = None
+            for blk, t in b.calls():
+                if not callee_of(t).endswith("Vec::<T, A>::push"):
+                    continue
+                S = S or T.Slicer(b, P)
+                a = Q.call_args(b, S, blk, t)
+                n += 1
+                extra = sorted({T.short(x[1]) for x in T.calls_in(a[1]) if not x[1].endswith(allowed)})
+                who = "%s:%s" % (crate, T.short(b.path))
+                ctx.check(not extra, "R7", who + ":stores-as-given@%d" % blk if False else who + ":stores-as-given:" + "+".join(sorted({x[2] for x in T.walk(a[0]) if x[0] == "field" and isinstance(x[2], str)})),
+                          "value stored as configured", "the configured value is rewritten by %s before it is stored: `matches` compares packet fields with the rewritten value, so "
+                          "the listed address / port no longer matches itself (and another one does)" % ",".join(extra), ctx.loc(b, blk))
+    ctx.floor("R7", "builder push sites in the three filter.rs copies", n, 24)
+
+
 def run(ctx):
+    rule_builders(ctx)
     for crate in CRATES:
         for fn in (rule_should_process, rule_port_matches, rule_range_conversion):
             ctx.guard("anchors", "%s:%s" % (crate, fn.__name__), lambda fn=fn, crate=crate: fn(ctx, crate))
